@@ -20,7 +20,7 @@ let () =
         (* the abstract key hash: looked up by position.  The model calls keyhash
            on the record; records are numbered in input order by a counter that
            follows the model's left-to-right fold. *)
-        let recs = records (z_of_int 10) shard_strip_cr bs in
+        let recs = records_fast (z_of_int 10) shard_strip_cr bs in
         if List.length recs <> Array.length hs then
           print_endline (Printf.sprintf "MISMATCH model sees %d records, implementation hashed %d" (List.length recs) (Array.length hs))
         else begin
@@ -36,7 +36,7 @@ let () =
           if not !ok then print_endline "MISMATCH the same line got two different hashes"
           else
             let keyhash r = match Hashtbl.find_opt tbl (key r) with Some h -> h | None -> N0 in
-            let outs = shard_tool keyhash n bs in
+            let outs = shard_tool_fast keyhash n bs in
             print_endline ("OK " ^ String.concat "," (List.map hex_or_dash outs))
         end
       | ["N"; prefix; number] ->
